@@ -68,6 +68,17 @@ CHECKS['C03'] = dict(
     technique="Coq proof (invariant over the collision table, arbitrary hash functions) + model-driven collision generation + g++ translation validation over the option lattice",
     ref="5/C03")
 
+CHECKS['C16'] = dict(
+    text="Proof: for every dependency graph (cyclic or not) the ordering loop of write_python_table_native, when it finishes, lists every contributing library exactly once; every "
+         "dependency not broken as part of a reported cycle is respected; in an acyclic graph nothing is broken, so each library precedes all libraries deriving from it; the cycle "
+         "search only reports closed walks along current edges. Correspondence: all digraphs on <=3 libraries and random ones on 4-6 libraries are built by real interrogate runs and "
+         "linked by interrogate_module in every command-line order; the exact 'Referencing Library' / RegisterTypes / LibraryDef order must equal the extracted model's; "
+         "unloadable databases must give a non-zero exit and no output file.",
+    note=TB + "termination of the loop is exercised (model never runs out of fuel, tool never hangs on the generated graphs) but not yet proved; typedef edges across libraries cannot be "
+         "realised without exporting one class from two libraries and are not generated.",
+    technique="Coq proof (loop invariant over the dependency map: edge accounting, order, cycle-search soundness) + exact-order differential check against interrogate_module",
+    ref="5/C16")
+
 PENDING = {
 }
 
